@@ -27,5 +27,7 @@ def witness_case(k, prop):
     case = {"id": "w_%s" % k["id"].lower(), "corpus": corpus, "finding": k["id"], "features": ["witness"],
             "schema_model": w.get("schema_model"), "schema_format": w.get("schema_format", "sdl"), "schema_text": w["schema"],
             "schema_ext": w.get("schema_ext", "graphql"), "doc_model": w.get("doc_model"), "doc_text": w["document"],
-            "options": opts, "support": w.get("support") or {"scalars": {}}, "vectors": w.get("vectors", {}).get(prop, [])}
+            "options": opts, "support": w.get("support") or {"scalars": {"Date": "String"}}, "vectors": w.get("vectors", {}).get(prop, [])}
+    if w.get("form"):
+        case["form"] = w["form"]
     return case
